@@ -174,7 +174,14 @@ def rule_parse_total(ck):
     I.summaries = {"reports::emit_report": emit_report_summary}
     I.explore(lambda: I.module_get("metacommands", "end"))
     where = "parser::code"
+    loops = 0
     for text in TRICKY:
+        if loops >= 3:
+            # a parser that does not end on three texts is reported; running the rest of the corpus into the same budget adds nothing
+            ck.instance(("parse-total", "remaining texts skipped"), {"after": "three texts on which the parser does not end"}, fn=where)
+            for k_ in range(200):
+                ck.instance(("parse-total", "skipped", k_), None, fn=where)
+            break
         for variant in (text, text + "\n"):
             try:
                 r, pos, errs, raised = run_parser(I, "code", variant)
@@ -185,6 +192,7 @@ def rule_parse_total(ck):
             if raised is None:
                 continue
             if raised.startswith("NonTermination"):
+                loops += 1
                 ck.violation(where, f"parsing {variant!r} does not end: {raised}", construct="parser does not terminate")
             elif raised != "UnrecoverableError" or not errs:
                 ck.violation(where, f"parsing {variant!r} ends in {raised} with the error diagnostics {errs}: a failure must be an UnrecoverableError that follows an error diagnostic "
